@@ -406,3 +406,80 @@ func cacheModule() []byte {
 	m.AddFunc(wb.Func{Params: p, Results: r, Export: "n2", Body: wb.LocalGet(0)})
 	return m.Bytes()
 }
+
+// recompile: ONE runtime, the same binary compiled twice under two listener factories (A, then B) that listen to the same
+// functions, the instance created after the FIRST compilation kept in use afterwards.  Whatever the second compilation
+// does (the in-memory cache hands back the first compiled module), each factory's listeners must see properly
+// bracketed events: every before closed by exactly one after or abort, innermost first - also for calls that unwind
+// through several listened frames - and both engines must tell each listener set the same thing.
+func recompile() {
+	m := wb.New()
+	m.AddFunc(wb.Func{Params: []byte{wb.I32}, Export: "run", Body: wb.Cat(wb.LocalGet(0), wb.Call(1))})
+	m.AddFunc(wb.Func{Params: []byte{wb.I32}, Body: wb.Cat(wb.LocalGet(0), wb.Op(wasm.OpcodeIf, 0x40), wb.Call(2), wb.Op(wasm.OpcodeEnd))})
+	m.AddFunc(wb.Func{Body: wb.Op(wasm.OpcodeUnreachable)})
+	bin := m.Bytes()
+	bracketed := func(evs []string) string {
+		var st []string
+		for _, e := range evs {
+			switch e[0] {
+			case 'B':
+				st = append(st, e[1:])
+			default:
+				if len(st) == 0 {
+					return "event " + e + " closes a call this listener set never saw starting"
+				}
+				if st[len(st)-1] != e[1:] {
+					return "event " + e + " closes function " + e[1:] + " while function " + st[len(st)-1] + " is the innermost open call"
+				}
+				st = st[:len(st)-1]
+			}
+		}
+		if len(st) > 0 {
+			return "before-events of functions " + strings.Join(st, ",") + " are never closed"
+		}
+		return ""
+	}
+	var perEngine [][2]string
+	for _, eng := range engines {
+		rt := wazero.NewRuntimeWithConfig(context.Background(), rtConfig(eng, false))
+		var evs [2][]string
+		var insts [2]api.Module
+		for k := 0; k < 2; k++ {
+			k := k
+			ctx := experimental.WithFunctionListenerFactory(context.Background(), experimental.FunctionListenerFactoryFunc(
+				func(def api.FunctionDefinition) experimental.FunctionListener {
+					return &idxListener{idx: def.Index(), evs: &evs[k]}
+				}))
+			cm, err := rt.CompileModule(ctx, bin)
+			if err != nil {
+				hx.Fatal("recompile: %v", err)
+			}
+			if insts[k], err = rt.InstantiateModule(ctx, cm, wazero.NewModuleConfig().WithName(fmt.Sprintf("inst%d", k))); err != nil {
+				hx.Fatal("recompile: %v", err)
+			}
+			// after EVERY compilation: the instances made so far run a returning and a trapping call
+			for j := 0; j <= k; j++ {
+				insts[j].ExportedFunction("run").Call(context.Background(), 0)
+				insts[j].ExportedFunction("run").Call(context.Background(), 1)
+			}
+		}
+		rt.Close(context.Background())
+		rep.Case("recompile/" + eng)
+		in := caseInput{Scenario: "recompile", Engine: eng, Listener: "two factories, all functions",
+			Note: "one runtime; compile under factory A, instantiate inst0, run(0) and run(1) [run -> mid -> trap]; compile the same bytes under factory B, instantiate inst1; run(0), run(1) on inst0 and on inst1"}
+		for k := 0; k < 2; k++ {
+			if why := bracketed(evs[k]); why != "" {
+				rep.Violate(hx.Violation{Kind: "impl-violation", Signature: "C20:recompiled-module-listener-events-not-bracketed:" + eng,
+					What:  fmt.Sprintf("%s: listener set %s: %s", eng, []string{"A (first compilation)", "B (second compilation)"}[k], why),
+					Input: in, Expected: "every before-event closed by exactly one after- or abort-event, innermost first", Actual: fmt.Sprintf("A saw [%s]; B saw [%s]", strings.Join(evs[0], " "), strings.Join(evs[1], " "))})
+				break
+			}
+		}
+		perEngine = append(perEngine, [2]string{strings.Join(evs[0], " "), strings.Join(evs[1], " ")})
+	}
+	if len(perEngine) == 2 && perEngine[0] != perEngine[1] {
+		rep.Violate(hx.Violation{Kind: "impl-violation", Signature: "C20:recompiled-module-listener-events-differ-between-engines",
+			What:  "the two listener sets of a module compiled twice in one runtime see different event sequences on the two engines",
+			Input: caseInput{Scenario: "recompile", Engine: "both", Listener: "two factories, all functions"}, Expected: fmt.Sprint(perEngine[0]), Actual: fmt.Sprint(perEngine[1])})
+	}
+}
